@@ -462,3 +462,150 @@ Proof.
   - intros fuel n s o s' CM NB I L H. destruct (ei_ok F dbg c mask n CM NB fuel s o s' I L H) as ((K & _) & _). exact K.
   - intros s t [I _]. now destruct (compute_pc_no_panic s t I).
 Qed.
+
+(* ---------------------------------------------------------------- shape of the result (composite locations) *)
+Definition sized (l : list piece) : Prop := Forall (fun p => p_size p <> None) l.
+
+(* what Evaluation::result()/value_result() can return *)
+Definition result_shape (mask : N) (ps : list piece) (vr : option value) : Prop :=
+  ps <> [] /\
+  ((vr = None /\ (sized ps \/ exists loc, ps = [mkPiece None None loc])) \/
+   (exists v a, vr = Some v /\ to_u64 v mask = Ok a /\ ps = [mkPiece None None (LAddress a)])).
+
+Lemma sized_cons p l : p_size p <> None -> sized l -> sized (p :: l).
+Proof. intros. now constructor. Qed.
+Lemma sized_rev l : sized l -> sized (rev l).
+Proof. unfold sized. intros H. apply Forall_rev. exact H. Qed.
+
+Section Pieces.
+Variable F : fops.
+
+Lemma eoo_result dbg c mask s r s' :
+  evaluate_one_operation F dbg c mask s = Ok (r, s') ->
+  s_vres s' = s_vres s /\
+  match r with
+  | RPiece => exists p, p_size p <> None /\ s_result s' = p :: s_result s
+  | _ => s_result s' = s_result s
+  end.
+Proof.
+  intros H. unfold evaluate_one_operation in H.
+  destruct (parse_op dbg (c_enc c) (s_pc (count_op (count_parse s)))) as [[o pc']| | |] eqn:P; cbn [bind] in H; try discriminate H.
+  destruct o; unfold binop, unop in H; peel; invert_prims; fields; (split; [reflexivity|]); try reflexivity.
+  all: eexists; split; [|reflexivity]; cbn; discriminate.
+Qed.
+
+Lemma eoe_result s : s_result (snd (end_of_expression s)) = s_result s /\ s_vres (snd (end_of_expression s)) = s_vres s.
+Proof.
+  unfold end_of_expression. destruct (eoe_loop _ _ _) as [b [[pc bc] es]]. cbn [snd]. fields. now split.
+Qed.
+
+Lemma eoe_loop_true pc bc es : forall b pc' bc' es', eoe_loop pc bc es = (b, (pc', bc', es')) ->
+  b = true -> pc' = [] /\ es' = [].
+Proof.
+  revert pc bc. induction es as [|[npc nbc] es IH]; intros pc bc b pc' bc' es' H B; destruct pc as [|x pc]; cbn [eoe_loop] in H.
+  - inversion H; subst. now split.
+  - inversion H; subst. discriminate.
+  - eapply IH; eauto.
+  - inversion H; subst. discriminate.
+Qed.
+
+Lemma eoe_true s : fst (end_of_expression s) = true ->
+  s_pc (snd (end_of_expression s)) = [] /\ s_estack (snd (end_of_expression s)) = [].
+Proof.
+  unfold end_of_expression. destruct (eoe_loop _ _ _) as [b [[pc bc] es]] eqn:E. cbn [fst snd]. fields.
+  intros ->. eapply eoe_loop_true; eauto.
+Qed.
+
+Lemma ei_at_end dbg c mask fuel s : s_pc s = [] -> s_estack s = [] -> s_result s <> [] ->
+  evaluate_internal F (S fuel) dbg c mask s = Ok (Done, set_code s (s_bytecode s) [] []).
+Proof.
+  intros P E R. cbn [evaluate_internal]. unfold end_of_expression. rewrite P, E. cbn [eoe_loop].
+  unfold finish. fields. destruct (s_result s); [contradiction|reflexivity].
+Qed.
+
+Lemma ei_pieces dbg c mask : forall fuel s o s',
+  sized (s_result s) -> s_vres s = None -> evaluate_internal F fuel dbg c mask s = Ok (o, s') ->
+  match o with
+  | Need _ _ => sized (s_result s') /\ s_vres s' = None
+  | Done => result_shape mask (rev (s_result s')) (s_vres s')
+  end.
+Proof.
+  induction fuel as [|fuel IH]; intros s o s' SZ VN H; [discriminate H|].
+  cbn [evaluate_internal] in H.
+  destruct (eoe_result s) as [R1 V1].
+  destruct (end_of_expression s) as [e s1] eqn:EOE. cbn [fst snd] in *.
+  destruct e.
+  { (* finish *)
+    unfold finish in H. destruct (s_result s1) as [|p l] eqn:RS.
+    - peel; invert_prims; fields. unfold result_shape. rewrite RS. cbn [rev app]. split; [discriminate|].
+      right. eauto.
+    - inversion H; subst. unfold result_shape. rewrite RS, V1, VN. split.
+      + intros E. apply (f_equal (@length _)) in E. rewrite rev_length in E. discriminate E.
+      + left. split; [reflexivity|]. left. apply sized_rev. rewrite R1. exact SZ. }
+  destruct (chk_add 32 dbg (s_iter s1) 1) as [it| | |]; cbn [bind] in H; try discriminate H.
+  destruct (match c_max c with Some m => m <? it | None => false end); [discriminate H|].
+  destruct (evaluate_one_operation F dbg c mask (set_iter s1 it)) as [[r s3]| | |] eqn:EO; cbn [bind] in H; try discriminate H.
+  destruct (eoo_result dbg c mask _ r s3 EO) as [V3 R3]. fields.
+  assert (SZ1 : sized (s_result s1)) by (rewrite R1; exact SZ).
+  assert (VN1 : s_vres s1 = None) by (rewrite V1; exact VN).
+  destruct r.
+  - destruct R3 as (p & PS & R3). apply (IH s3 o s'); auto; [rewrite R3; now apply sized_cons|congruence].
+  - destruct (eoe_result s3) as [R4 V4]. destruct (end_of_expression s3) as [e4 s4]. cbn [fst snd] in *.
+    destruct (e4 && _); [discriminate H|]. apply (IH s4 o s'); auto; congruence.
+  - destruct (eoe_result s3) as [R4 V4]. pose proof (eoe_true s3) as ET.
+    destruct (end_of_expression s3) as [e4 s4]. cbn [fst snd] in *.
+    destruct e4.
+    + destruct (ET eq_refl) as [PC4 ES4].
+      destruct (s_result s4) eqn:RS4; [|discriminate H].
+      destruct (push_piece c s4 _) as [s5| | |] eqn:PP; cbn [bind] in H; try discriminate H.
+      apply push_piece_inv in PP. subst s5.
+      destruct fuel as [|fuel]; [discriminate H|].
+      rewrite ei_at_end in H by (fields; auto; rewrite RS4; discriminate).
+      inversion H; subst. fields. rewrite RS4. cbn [rev app]. unfold result_shape. split; [discriminate|].
+      left. split; [congruence|]. right. eauto.
+    + cbv zeta in H.
+      destruct (parse_op dbg (c_enc c) (s_pc s4)) as [[o2 pc2]| | |] eqn:P2; cbn [bind] in H; try discriminate H.
+      destruct o2; peel.
+      match goal with PP : push_piece _ _ _ = Ok ?s5 |- _ => apply push_piece_inv in PP; subst s5 end.
+      eapply IH; [| |exact H]; fields; [|congruence].
+      apply sized_cons; [cbn; discriminate|]. congruence.
+  - inversion H; subst. split; congruence.
+Qed.
+
+Lemma resume_apply_result c mask w a s s' : resume_apply F c mask w a s = Ok s' ->
+  s_result s' = s_result s /\ s_vres s' = s_vres s.
+Proof. intros H. unfold resume_apply in H. destruct w; peel; invert_prims; fields; now split. Qed.
+
+Lemma drive_pieces dbg c mask fuel : forall answers r,
+  (forall o s, r = Ok (o, s) ->
+     match o with Need _ _ => sized (s_result s) /\ s_vres s = None
+                | Done => result_shape mask (rev (s_result s)) (s_vres s) end) ->
+  forall ps vr a b, snd (drive F fuel dbg c mask r answers) = FComplete ps vr a b -> result_shape mask ps vr.
+Proof.
+  induction answers as [|ans rest IH]; intros r HR ps vr a b E.
+  - destruct r as [[[|w rq] s]| e | |]; cbn [drive snd] in E; try discriminate E.
+    inversion E; subst. exact (HR _ _ eq_refl).
+  - destruct r as [[[|w rq] s]| e | |]; cbn [drive] in E; try discriminate E.
+    + cbn [snd] in E. inversion E; subst. exact (HR _ _ eq_refl).
+    + destruct (HR _ _ eq_refl) as [SZ VN].
+      destruct (drive F fuel dbg c mask (resume F fuel dbg c mask w ans s) rest) as [rqs f] eqn:D. cbn [snd] in E. subst f.
+      apply (IH (resume F fuel dbg c mask w ans s)) with (a := a) (b := b); [|rewrite D; reflexivity].
+      intros o s' ER. unfold resume in ER.
+      destruct (resume_apply F c mask w ans s) as [s1| | |] eqn:RA; cbn [bind] in ER; try discriminate ER.
+      destruct (resume_apply_result _ _ _ _ _ _ RA) as [R1 V1].
+      apply (ei_pieces dbg c mask fuel s1 o s'); auto; congruence.
+Qed.
+
+Lemma run_pieces dbg c fuel program answers reqs ps vr a b mask :
+  new_mask dbg (e_asz (c_enc c)) = Ok mask ->
+  run F fuel dbg c program answers = (reqs, FComplete ps vr a b) -> result_shape mask ps vr.
+Proof.
+  intros NM H. unfold run in H. rewrite NM in H.
+  apply (drive_pieces dbg c mask fuel answers (evaluate F fuel dbg c mask program)) with (a := a) (b := b); [|now rewrite H].
+  intros o s E. unfold evaluate in E.
+  destruct (match c_init c with Some v => _ | None => _ end) as [s1| | |] eqn:PI; cbn [bind] in E; try discriminate E.
+  assert (I1 : s_result s1 = [] /\ s_vres s1 = None).
+  { destruct (c_init c); [apply push_inv in PI; subst|inversion PI; subst]; now split. }
+  destruct I1 as [R1 V1]. apply (ei_pieces dbg c mask fuel s1 o s); auto. rewrite R1. constructor.
+Qed.
+End Pieces.
